@@ -120,7 +120,14 @@ def no_undescribed_access(ctx):
                 dom = any(all(cfg.dominates([t], i) for i in cfg.node_of(n)) for t in tests)
                 from_export = any('secnode.export' in src(x.value) for x in body_walk(fi.node)
                                   if isinstance(x, ast.Assign) and any(src(l.iter) == src(x.targets[0]) for l in loops))
-                ctx.check(dom or from_export, f'{fi.qualname}:direct module lookup', n,
+                # ... or out of a private helper of the dispatcher that tests / lists secnode.export (`for name, p in self._scope(conn, spec):`)
+                from_helper = False
+                for l in loops:
+                    for c in [x for x in ast.walk(l.iter) if isinstance(x, ast.Call) and isinstance(x.func, ast.Attribute) and dotted(x.func.value) == 'self']:
+                        h = ci.methods.get(c.func.attr)
+                        if h is not None and 'secnode.export' in src(h.node, 20000):
+                            from_helper = True
+                ctx.check(dom or from_export or from_helper, f'{fi.qualname}:direct module lookup', n,
                           'dominated by an `in secnode.export` test / iterates names taken from secnode.export',
                           'a request handler indexes secnode.modules with a request-derived name without an export test: '
                           'an unexported module becomes reachable', fi)
@@ -222,7 +229,7 @@ def reply_shape(ctx):
     # users apply list() to the pair
     for hname in ('handle_read', 'handle_change', 'handle_do'):
         h = m.method(D, hname, inherited=False)
-        ok = any(dotted(c.func) == 'list' and c.args and isinstance(c.args[0], ast.Call) for c in calls_in(h.node))
+        ok = any(dotted(c.func) == 'list' and c.args and isinstance(resolved(c.args[0], h.node), ast.Call) for c in calls_in(h.node))
         ctx.check(ok, f'{h.qualname}:data is the [value, qualifiers] list', h.node, 'list(<pair>)', 'reply data is not built from the pair', h)
 
 
@@ -629,3 +636,36 @@ def emitted_container_values_use_the_member_transport_form(ctx):
     scaled member), a fast path that returns the elements as they are emits values the described datainfo refuses"""
     from sa.rules import c02
     c02.container_delegation(ctx)
+
+
+@rule('C06.R2d', min_instances=1)
+def an_unknown_name_is_not_taken_for_no_name(ctx):
+    """handle_activate (with its helpers): `<module>` activates the whole module, `<module>:<name>` one parameter.  The wire name
+    is translated through accessiblename2attr; a name that is NOT described must not translate to the same thing as "no name
+    given" (None / falsy) where the refusal is skipped for a falsy name (`if pname and pname not in parameters: raise`) -
+    otherwise `activate mod:<anything undescribed>` is accepted and answered with the snapshot of the whole module"""
+    m = ctx.m
+    from sa.rules.c08 import _act_unit
+    n = 0
+    for g, site in _act_unit(m):
+        for a in [x for x in body_walk(g.node) if isinstance(x, ast.Assign) and len(x.targets) == 1 and isinstance(x.targets[0], ast.Name)]:
+            gets = [c for c in ast.walk(a.value) if isinstance(c, ast.Call) and call_attr(c) == 'get' and 'accessiblename2attr' in src(c.func)]
+            if not gets:
+                continue
+            n += 1
+            ctx.analysed(g)
+            name = a.targets[0].id
+            falsy_default = [c for c in gets if (len(c.args) < 2 and kwarg(c, 'default') is None) or
+                             (len(c.args) > 1 and isinstance(c.args[1], ast.Constant) and not c.args[1].value)]
+            cfg = CFG(g.node, m, g.module)
+            skipped = [t.ast for t in cfg.nodes if t.kind == 'test' and isinstance(t.ast, ast.BoolOp) and isinstance(t.ast.op, ast.And)
+                       and any(isinstance(v, ast.Name) and v.id == name for v in t.ast.values)
+                       and any(isinstance(v, ast.Compare) and any(isinstance(o, ast.NotIn) for o in v.ops) and name in names_in(v) for v in t.ast.values)]
+            key = f'{g.qualname}:a name that is not described is refused, not taken for "whole module"'
+            if falsy_default and skipped:
+                ctx.bad(key, falsy_default[0], f'`{src(falsy_default[0])}` gives None for a wire name that is not described, and `{src(skipped[0])}` skips the refusal for a '
+                        'falsy name: `activate <module>:<undescribed name>` is registered and answered with the snapshot of the whole module', g)
+            else:
+                ctx.ok(key, a, 'an undescribed name translates to something the parameter test refuses', g)
+    if not n:
+        raise AnchorMissing('translation of the wire name (accessiblename2attr.get) not found in handle_activate')
